@@ -23,6 +23,7 @@ type Parser interface {
 	Trace() []ref.Ev
 	Tree() []*ref.Node
 	Sprint() string
+	PrintOut(pretty bool) string // what PrintSyntaxTree writes to standard output
 	BufferLen() int
 }
 
@@ -307,13 +308,22 @@ func sameTree(a, b []*ref.Node) bool {
 
 // quote is strconv.Quote; kept behind a variable so that vhlib has no strconv import cycle issues
 func expectPrint(nodes []*ref.Node, depth int, in []rune, quote func(string) string) string {
+	return expectPrintP(nodes, depth, in, quote, false)
+}
+
+// expectPrintP: with pretty the rule name is wrapped in the cyan colour code, nothing else changes.
+func expectPrintP(nodes []*ref.Node, depth int, in []rune, quote func(string) string, pretty bool) string {
 	s := ""
 	for _, nd := range nodes {
 		for i := 0; i < depth; i++ {
 			s += " "
 		}
-		s += nd.Rule + " " + quote(string(in[nd.B:nd.E])) + "\n"
-		s += expectPrint(nd.Kids, depth+1, in, quote)
+		rule := nd.Rule
+		if pretty {
+			rule = "\x1B[36m" + rule + "\x1B[m"
+		}
+		s += rule + " " + quote(string(in[nd.B:nd.E])) + "\n"
+		s += expectPrintP(nd.Kids, depth+1, in, quote, pretty)
 	}
 	return s
 }
@@ -337,6 +347,9 @@ func C05(g *ref.Grammar, mk func() Parser, quote func(string) string, n, nsw int
 	s := p.Sprint()
 	rt.ObserveStr("print", s)
 	rt.Assert("print", s == expectPrint(want, 0, in.R, quote))
+	// PrintSyntaxTree writes the same text to standard output; with Pretty the rule names are coloured
+	rt.Assert("print-stdout", p.PrintOut(false) == s)
+	rt.Assert("print-stdout-pretty", p.PrintOut(true) == expectPrintP(want, 0, in.R, quote, true))
 	rt.Assert("tokens-after-print", sameToks(p.Tokens(), r.Toks))
 	if len(want) > 0 {
 		rt.Reach("nonempty-tree")
